@@ -744,7 +744,9 @@ func (R *Run) compareLayout(rule, construct, pos string, alts [][]Seg, want []sp
 	R.bad(rule, construct, pos, "wire layout differs from the protocol's record layout: "+firstWhy)
 }
 
-func checkLayouts(R *Run) {
+func checkLayouts(R *Run) { checkLayoutsFiltered(R, nil) }
+
+func checkLayoutsFiltered(R *Run, only func(typ string) bool) {
 	P := R.P
 	R.rule("layout", "the operand list of the buffer each encoder assembles (slices.Concat / append chains, helper results inlined), turned into segments (fixed field of width N, constant bytes, variable field, N-byte length-of / count-of / computed value), equals the record layout of spec/layouts.json written from the protocol document: same order, widths, constants, and every length/count slot measures the segment the protocol says it announces")
 	R.rule("prefix", "size helpers are arithmetic consequences of the layouts: Transaction.Size = w(param count) + Σ(w(Field header) + len(Data)) with both widths derived from the extracted layouts; FlatFileInformationFork.DataSize/Size = Σ fixed widths + len of each variable segment; stored prefix fields (Field.FieldSize, FileNameWithInfo.NameSize, FlatFileInformationFork.CommentSize/NameSize, FileHeader.Size) are outside decoders only written with the length of the data stored next to them")
@@ -764,6 +766,9 @@ func checkLayouts(R *Run) {
 	extracted := map[string][][]Seg{}
 	for _, o := range spec.Objects {
 		if o.Encoder != "Read" {
+			continue
+		}
+		if only != nil && !only(o.Type) {
 			continue
 		}
 		fn := P.fn("(*" + o.Type + ").Read")
@@ -798,6 +803,9 @@ func checkLayouts(R *Run) {
 			continue
 		}
 		R.compareLayout("layout", o.Type+".Read", pos, alts, o.Segments, all, "")
+	}
+	if only != nil {
+		return
 	}
 	R.floor("layout", 12)
 
